@@ -22,6 +22,8 @@ import EaselModel.Sqio.EmblWin
 import EaselModel.Sqio.RevWindowGeo
 import EaselModel.Sqio.TrackerExact
 import EaselModel.Sqio.PositionSpec
+import EaselModel.Sqio.PositionAny
+import EaselModel.Sqio.TrackerChunks
 /-! # C04 — all ways of reading a sequence file agree with each other and with the file
 
 Property theorems only (proofs are glue on `Sqio/Windows.lean`, `Sqio/Refine.lean`, `Sqio/Spec.lean`).
@@ -802,6 +804,23 @@ theorem tracker_rejects_former_exceptions :
 example : (runFile {} [[⟨5, 4, true⟩, ⟨5, 4, true⟩, ⟨3, 2, true⟩], [⟨5, 4, true⟩, ⟨1, 1, false⟩]]).rpl = 4 ∧
     (runFile {} [[⟨5, 4, true⟩, ⟨5, 4, true⟩, ⟨3, 2, true⟩], [⟨5, 4, true⟩, ⟨1, 1, false⟩]]).bpl = 5 := by decide
 
+/-- **The tracker does not notice where `seebuf` stops inside a line.** `seebuf` is called buffer by buffer and window by window, so a
+    line reaches the tracker in pieces: any number of `Track.onStop` (the tail of a call that ends inside the line; `piece`), then the
+    call that completes it. From any point inside a line (`InLine`: counters known, previous line of the record `prev`), any pieces
+    `cs` followed by the rest `l` of the line leave the tracker in EXACTLY the state the whole line in one piece leaves it in — so
+    `tracker_iff`, stated for lines seen in one piece, holds for every read-block size and every window width. -/
+theorem tracker_ignores_where_seebuf_stops (cs : List (Int × Int)) (t : Track) (prev : Option Line) (l : Line)
+    (h : TrackerChunks.InLine t prev) (hpn : ∀ q, prev = some q → 0 ≤ q.r ∧ 0 ≤ q.b)
+    (hcs : ∀ c ∈ cs, 1 ≤ c.1 ∧ 0 ≤ c.2 ∧ c.2 ≤ c.1) (hb : 0 ≤ l.b) (hr : 0 ≤ l.r) (hx : 0 ≤ l.x) :
+    line (cs.foldl TrackerChunks.piece t) l = line t ⟨(cs.map Prod.fst).sum + l.b, (cs.map Prod.snd).sum + l.r, l.eol⟩ :=
+  TrackerChunks.chunked_line cs t prev l h hpn hcs hb hr hx
+
+/-- non-vacuity: right after `header_fasta` the tracker is inside (at the start of) a line with no previous line; the line `ACGT\n` seen
+    as `AC` | `G` | `T\n` leaves the state of `ACGT\n` seen at once -/
+example : TrackerChunks.InLine (hdr {}) none ∧
+    line ([(2, 2), (1, 1)].foldl TrackerChunks.piece (hdr {})) ⟨2, 1, true⟩ = line (hdr {}) ⟨5, 4, true⟩ := by
+  refine ⟨⟨by decide, by decide, by decide, ⟨rfl, rfl⟩⟩, by decide⟩
+
 end tracker
 
 /-! ## `esl_sqfile_Position` agrees with the sequential reader -/
@@ -836,6 +855,29 @@ example :
     let a : Ascii := { file := #[62, 97, 10, 65, 67, 10, 62, 98, 10, 71, 10], B := 3, fmt := 1, eofIsOk := true, inmap := inmapFasta 0 }
     a.file = #[62, 97, 10, 65, 67, 10, 62, 98, 10, 71, 10] ∧ a.linebased = false ∧ a.recording ≠ 1 ∧ 1 ≤ a.B ∧
     a.inmap = inmapFasta 0 ∧ a.fmt = 1 ∧ a.eofIsOk = true := ⟨rfl, rfl, by decide, by decide, rfl, rfl, rfl⟩
+
+/-- **The handle after `esl_sqfile_Position(off)` is a ready handle on the bytes from `off`, for every offset inside the file and every
+    block size** — so every theorem of this file stated "from every ready handle" (`read_one_record_closed_form`,
+    `read_readInfo_readSequence_agree`, `windows_eq_read`, `windows_concat_eq_read`, `readBlock_short_eq_read`, …) holds after any
+    `Position`: `ReadInfo`, `ReadSequence`, the forward window series and whole-sequence `ReadBlock` agree with `Read` there too. -/
+theorem position_yields_ready_handle (bytes : Bytes) (abc : Nat) (habc : abc ∈ [0, 1, 2, 3]) (off : Nat) (hoff : off < bytes.size)
+    (a : Ascii) (hf : a.file = bytes) (hb : a.linebased = false) (hr : a.recording ≠ 1) (hB : 1 ≤ a.B)
+    (hi : a.inmap = inmapFasta abc) (hfmt : a.fmt = 1) (heof : a.eofIsOk = true)
+    (sq : Sq) (hdig : sq.digital = (abc != 0)) (hsabc : sq.abc = abc) (hna : 2 ≤ sq.nalloc) (hda : 2 ≤ sq.dalloc) :
+    (position a off).2 = .ok ∧ ReadSpec.Ready (position a off).1 sq ∧
+    DataScan.fileFrom (position a off).1 = bytes.toList.drop off ∧ (position a off).1.B = a.B :=
+  PositionAny.position_ready bytes abc habc off hoff a hf hb hr hB hi hfmt heof sq hdig hsabc hna hda
+
+/-- **Position anywhere, then the read loop = the declarative parser on the rest of the file**: for EVERY offset inside the file,
+    every block size and every fuel, the records (name, description, residues, `roff` / `hoff` / `doff` / `eoff` counted from the start
+    of the file, `L`) and the final status are `specAll` (the parser behind `specFasta`) on `bytes.drop off`. `off = 0`: `specFasta`. -/
+theorem position_then_read_all_eq_spec (bytes : Bytes) (abc : Nat) (habc : abc ∈ [0, 1, 2, 3]) (off : Nat) (hoff : off < bytes.size)
+    (a : Ascii) (hf : a.file = bytes) (hb : a.linebased = false) (hr : a.recording ≠ 1) (hB : 1 ≤ a.B)
+    (hi : a.inmap = inmapFasta abc) (hfmt : a.fmt = 1) (heof : a.eofIsOk = true) (fuel : Nat) :
+    (position a off).2 = .ok ∧
+    ((readAllM fuel (position a off).1 (freshSq abc)).1.map toRecord, (readAllM fuel (position a off).1 (freshSq abc)).2) =
+      specAll (inmapFasta abc) (PositionAny.mapOfMode abc) bytes.size fuel (bytes.toList.drop off) :=
+  PositionAny.position_read_all bytes abc habc off hoff a hf hb hr hB hi hfmt heof fuel
 
 end position
 
